@@ -146,3 +146,28 @@ Proof.
   intros Hb. destruct (nested_accept o a pn pr m2 Hb) as (_ & _ & _ & _ & _ & Hr).
   exact (value_is_source (nested_route_cfg o a m2) pr sc Hr).
 Qed.
+
+(* C04, embedded placement, as rejections: a name bound by the prefix that is also a resource of any level, a
+   reserved name, or provided by any middleware function of the flat list makes the nested construction fail *)
+Lemma NoDup_app_twice {X} (a b c : list X) x : In x a -> In x c -> ~ NoDup (a ++ b ++ c).
+Proof.
+  intros Ha Hc Hn. apply (NoDup_app_disjoint a (b ++ c) x Hn Ha). apply in_or_app. right. exact Hc.
+Qed.
+
+Theorem nested_prefix_conflict_rejected o a n :
+  In n (o_prefix_url o) ->
+  (In n (a_route_url a) \/ In n RESERVED_ARGS \/ In n (o_resources o) \/ In n (a_resources a) \/ In n (a_route_resources a)) ->
+  forall r, build_nested o a <> Ok r.
+Proof.
+  intros Hp Hc [[pn pr] m2] Hb.
+  pose proof (nested_accept o a pn pr m2 Hb) as (_ & _ & _ & _ & _ & Hr).
+  pose proof (accept_disjoint (nested_route_cfg o a m2) pr Hr) as Hn.
+  unfold all_offers, src_offers, nested_route_cfg in Hn. cbn [r_url r_resources r_mws] in Hn.
+  (* the sources list starts with  prefix ++ route_url ++ RESERVED ++ dedup(resources) *)
+  rewrite <- !app_assoc in Hn.
+  destruct Hc as [H|[H|H]].
+  - apply (NoDup_app_disjoint (o_prefix_url o) _ n Hn Hp). apply in_or_app. left. exact H.
+  - apply (NoDup_app_disjoint (o_prefix_url o) _ n Hn Hp). apply in_or_app. right. apply in_or_app. left. exact H.
+  - apply (NoDup_app_disjoint (o_prefix_url o) _ n Hn Hp). apply in_or_app. right. apply in_or_app. right.
+    apply in_or_app. left. apply In_dedup. rewrite !in_app_iff. tauto.
+Qed.
